@@ -54,10 +54,10 @@ def read_decimal(data, writer_schema=None, reader_schema=None):
 
     unscaled_datum = int.from_bytes(data, byteorder="big", signed=True)
 
-    decimal_context.prec = precision
-    return decimal_context.create_decimal(unscaled_datum).scaleb(
-        -scale, decimal_context
-    )
+    # A context of its own: the precision must not be visible to (or changed
+    # by) a decimal that another thread is reading at the same time
+    context = Context(prec=precision)
+    return context.create_decimal(unscaled_datum).scaleb(-scale, context)
 
 
 def read_time_millis(data, writer_schema=None, reader_schema=None):
